@@ -100,8 +100,8 @@ Inductive stim :=
 | StSubAccept (s : nat)
 | StIncoming
 | StRefused
-| StFirstByte (c : nat) (b : byte)
-| StReadErr (c : nat)
+| StFirstByte (c : nat) (z : nat) (b : byte)   (* z zero-length reads, then a read that yields b *)
+| StReadErr (c : nat) (z : nat)                (* z zero-length reads, then a failing read *)
 | StWait (handoffs : list (nat * nat)) (conns : list N) (subs : list (N * N)) (bclosed : bool).
 
 Definition hidden_acts (m : c18_ms) : list c18_act :=
@@ -175,8 +175,16 @@ Fixpoint replay (m : c18_ms) (l : list stim) : bool :=
       | StSubAccept s => match vis m (ASubAccept s) with Some m' => replay m' t | None => false end
       | StIncoming => match vis m AIncoming with Some m' => replay m' t | None => false end
       | StRefused => m_base_closed m && replay m t
-      | StFirstByte c b => match vis m (AFirstByte c b) with Some m' => replay m' t | None => false end
-      | StReadErr c => match vis m (AReadErr c) with Some m' => replay m' t | None => false end
+      | StFirstByte c z b =>
+          match c18_mux_peek (repeat [] z ++ [[b]]) with
+          | Some (b', _) => match vis m (AFirstByte c b') with Some m' => replay m' t | None => false end
+          | None => false
+          end
+      | StReadErr c z =>
+          match c18_mux_peek (repeat [] z) with
+          | None => match vis m (AReadErr c) with Some m' => replay m' t | None => false end
+          | Some _ => false
+          end
       | StWait hs conns subs bc =>
           match settle 300 m with
           | Some m1 =>
